@@ -65,7 +65,7 @@ def write_evidence(res, wall):
     os.replace(tmp, os.path.join(EVIDENCE_DIR, res.pid + ".json"))
 
 
-def finish(res, t0):
+def finish(res, t0, is_replay=False):
     known = load_known()
     unknown = 0
     seen_known = set()
@@ -104,7 +104,8 @@ def finish(res, t0):
     res.coverage["distinct_unknown_violation_signatures"] = unknown
     for d in res.drift[:10]:
         print("DRIFT: " + d, file=sys.stderr)
-    write_evidence(res, time.time() - t0)
+    if not is_replay:           # a replay run never overwrites the evidence of the real check
+        write_evidence(res, time.time() - t0)
     if unknown:
         return 1
     if res.machinery:
@@ -140,7 +141,7 @@ def main():
         traceback.print_exc()
         print("MACHINERY: handler crashed", file=sys.stderr)
         return 2
-    return finish(res, t0)
+    return finish(res, t0, is_replay=bool(a.replay))
 
 
 if __name__ == "__main__":
